@@ -5,6 +5,7 @@ package server
 import (
 	"bytes"
 	"fmt"
+	"github.com/cbeuw/Cloak/internal/vrt/sync"
 	"net"
 	"strings"
 	rtime "time"
@@ -392,6 +393,95 @@ func init() {
 		return rep
 	}})
 
+	// redir.pair: two unauthenticated peers at the same time (one of them a correctly sealed hello that
+	// is rejected only after authentication: unknown proxy method / unauthorised UID; the other a plain
+	// request). Each relay carries its own peer's bytes: the two target connections receive exactly the
+	// two peers' streams, one each - in every interleaving up to the bound.
+	vx.Register(&vx.Scenario{Name: "redir.pair", Prop: "C09", Run: func(c *vx.Ctx) *vx.Report {
+		uid := uidOf(0)
+		vrt.SeedPlainRand(c.Seed)
+		voff := int(vrt.VEpoch.Unix() - rtime.Now().Unix())
+		helloBadMethod, _ := captureFirst(hsCase{Transport: "direct", Browser: "firefox", Method: "plain", ProxyMethod: "nosuchmethod", SID: 4, ServerName: "example.com", Offset: voff}, uid)
+		helloBadUID, _ := captureFirst(hsCase{Transport: "direct", Browser: "firefox", Method: "plain", ProxyMethod: "shadowsocks", SID: 4, ServerName: "example.com", Offset: voff}, uidOf(1))
+		vrt.UnseedPlainRand()
+		first := helloBadMethod
+		if c.P("first", "badmethod") == "baduid" {
+			first = helloBadUID
+		}
+		second := []byte("GET /index.html HTTP/1.1\r\nHost: example.com\r\nUser-Agent: probe\r\n\r\n")
+		if c.P("second", "get") == "garbage" {
+			second = append([]byte{0x00}, patternN(300, 3)...)
+		}
+		sc := &vrt.Scenario{
+			Opt:      vrt.Options{Delay: true, HorizonNs: int64(100 * time.Second), MemVars: true},
+			Classify: deadlockIs("no-deadlock"),
+			Main: func() {
+				mm := newMemManager()
+				mm.add(uidOf(0), memUser{upRate: 1 << 30, downRate: 1 << 30, upCredit: 1 << 30, downCredit: 1 << 30, expiry: 1 << 40, cap: 5})
+				r := newE2ERig(mm, nil, nil)
+				var got [][]byte
+				vrt.Go("web", func() {
+					for {
+						wc, err := r.webL.Accept()
+						if err != nil {
+							return
+						}
+						k := len(got)
+						got = append(got, nil)
+						vrt.Go("web-conn", func() {
+							b := make([]byte, 8192)
+							for {
+								n, err := wc.Read(b)
+								got[k] = append(got[k], b[:n]...)
+								if err != nil {
+									return
+								}
+							}
+						})
+					}
+				})
+				r.serve(2)
+				var wg sync.WaitGroup
+				for i, data := range [][]byte{first, second} {
+					i, data := i, data
+					wg.Add(1)
+					vrt.Go(fmt.Sprintf("peer%d", i), func() {
+						defer wg.Done()
+						conn, err := r.dialer.Dial("tcp", "server:443")
+						if err != nil {
+							vrt.Fail("harness", "dial: %v", err)
+						}
+						conn.Write(data)
+					})
+				}
+				wg.Wait()
+				time.Sleep(20 * time.Second)
+				if len(got) != 2 {
+					vrt.Fail("complete-input-is-relayed", "two peers sent complete first packets; the redirect target was contacted %d times", len(got))
+				}
+				ok := (bytes.Equal(got[0], first) && bytes.Equal(got[1], second)) || (bytes.Equal(got[0], second) && bytes.Equal(got[1], first))
+				if !ok {
+					which := func(b []byte) string {
+						switch {
+						case bytes.Equal(b, first):
+							return "peer 0's stream"
+						case bytes.Equal(b, second):
+							return "peer 1's stream"
+						case bytes.HasPrefix(first, b):
+							return fmt.Sprintf("a %d-byte prefix of peer 0's stream", len(b))
+						case bytes.HasPrefix(second, b):
+							return fmt.Sprintf("a %d-byte prefix of peer 1's stream", len(b))
+						}
+						return fmt.Sprintf("%d bytes that are neither peer's stream (first difference from peer 0 at %d, from peer 1 at %d)", len(b), firstDiff(first, b), firstDiff(second, b))
+					}
+					vrt.Fail("target-gets-exact-prefix", "two simultaneous unauthenticated peers: one target connection received %s, the other %s", which(got[0]), which(got[1]))
+				}
+				vrt.Observe("relayed")
+			},
+		}
+		return vx.RunSched(c, sc, nil)
+	}})
+
 	// redir.target: which address the relay connects to. The configured redirect host, on the
 	// configured port or - when none is configured - on the port the peer contacted; for every sequence
 	// of probes (up to `depth`) arriving on the server's two ports.
@@ -492,6 +582,8 @@ func init() {
 				jobs = append(jobs, vx.Job{Scenario: "redir.relay", Params: vx.P("family", fam, "cuts", "single", "scripts", "one,two,reply-close,close"), Bound: 2, BudgetS: 900, Weight: 9})
 			}
 		}
+		jobs = append(jobs, vx.Job{Scenario: "redir.pair", Params: vx.P("first", "badmethod", "second", "get"), Bound: map[bool]int{true: 2, false: 3}[q], BudgetS: 110, Weight: 5},
+			vx.Job{Scenario: "redir.pair", Params: vx.P("first", "baduid", "second", "garbage"), Bound: map[bool]int{true: 2, false: 3}[q], BudgetS: 110, Weight: 5})
 		jobs = append(jobs, vx.Job{Scenario: "redir.target", Params: vx.P("depth", map[bool]string{true: "3", false: "5"}[q]), Weight: 1})
 		return jobs
 	})
